@@ -1,5 +1,5 @@
 (* proofs/C12_sum.v -- the sums: FIRM over category thresholds, risk matrix over decision points. *)
-From V Require Import lib.Tree lib.C12_aux gen.Gen_C12_kern model.C12 proofs.C12.
+From V Require Import lib.Tree lib.C12_aux gen.Gen_C12_kern model.C12 proofs.C12 proofs.C12_nan.
 
 (* ---------------- FIRM: sum over thresholds ---------------- *)
 Lemma firm_point_cons c f o a d s tw r :
@@ -95,4 +95,31 @@ Proof.
   intros Hin Hf Ho Hn. unfold rms_case. apply xsum_in_nan. apply in_flat_map.
   exists (f, o, (XFin p, XFin w) :: pws). split; auto. simpl. left.
   apply (rms_cell_nan_iff s f o p w Hf Ho). exact Hn.
+Qed.
+
+(* ---------------- the full-function models: every output cell is the NaN-skipping mean, over the reduced
+   dimensions, of weight * per-case sum ---------------- *)
+Lemma firm_m_value c fcst obs alpha ths wts d rd pd w assign r e :
+  firm_m c fcst obs alpha ths wts d rd pd w assign = Ok r ->
+  exists R, gather (ldims fcst) (ldims obs) None rd pd DNone = Ok R /\
+    let s := apply_weights w (firm_pointwise c fcst obs alpha ths wts d assign) in
+    lget r e = nanmean (map (lget s) (envs (lsize s) (dinter (ldims s) R) e)).
+Proof.
+  unfold firm_m, guard, of_guard12. destruct (gen_guard_firm alpha d assign);
+  repeat match goal with |- context [if ?b then Err ValueError else Ok tt] => destruct b end;
+  simpl; try (intro H; discriminate H).
+  destruct (gather _ _ _ _ _ _) as [R|]; simpl; intro H; inversion H. exists R. split; auto.
+Qed.
+
+Lemma rms_m_value fcst obs dw thr sev prob sf so sw assign rd pd w r e :
+  rms_m fcst obs dw thr sev prob sf so sw assign rd pd w = Ok r ->
+  exists R, gather (ddiff (ldims fcst) [sev]) (ddiff (ldims obs) [sev]) (option_map ldims w) rd pd DNone = Ok R /\
+    let s := apply_weights w (rms_pointwise fcst obs dw thr sev prob assign) in
+    lget r e = nanmean (map (lget s) (envs (lsize s) (dinter (ldims s) R) e)) /\
+    lget (rms_pointwise fcst obs dw thr sev prob assign) e = rms_case assign (rms_rows fcst obs dw thr sev prob e).
+Proof.
+  unfold rms_m, guard, of_guard12. destruct (gen_guard_rms _ _ _ _ _);
+  repeat match goal with |- context [if ?b then Err ValueError else Ok tt] => destruct b end;
+  simpl; try (intro H; discriminate H).
+  destruct (gather _ _ _ _ _ _) as [R|]; simpl; intro H; inversion H. exists R. repeat split; auto.
 Qed.
